@@ -374,4 +374,7 @@ def run(p, rep, tier):
     from . import c05
 
     c05.r8(p, rep)
+    from . import c01
+
+    c01.r13(p, rep)  # the adapted function's result is labelled with the expression it was actually arranged for
     rep.info["undecided"] = "the values computed by the adapted function and that the axis= tuple / vmap axes are the right ones"
